@@ -404,6 +404,51 @@ def _wa_judge(spec, drifted, field, fail, tmpdir, tag):
             fail('drift_not_detected', dict(inp, drifted=d, drift=kind), {'exit': code, 'fields_named': named, 'stdout': out[-200:]}, 'exit 3, Failed, naming %r' % f_)
 
 
+def fleet_stage(ctx, fail, cov, specs, tmpdir):
+    """The policy made from a server, used in one scan of a targets file that names that server between drifted copies of it (1 and 3 worker
+    threads): every target gets the verdict and the errors it gets when it is scanned alone — the source passes with no error, a drifted copy
+    names its own field only.  (Seed C05-12: the per-target policies of a targets-file scan shared one error list.)"""
+    import fakenet as fn
+    r = ctx.rng
+    for spec in specs:
+        pol = os.path.join(tmpdir, 'fleet-pol-%d.txt' % len(os.listdir(tmpdir)))
+        code, out = _wa_run(['-M', pol], spec)
+        if code != 0 or not os.path.exists(pol):
+            continue        # reported by the whole-audit stage
+        drifts = [d for d, f_, kind in _wa_drifts(r, spec) if kind not in ('modulus', 'modulus-one-algorithm')]
+        if not drifts:
+            continue
+        members = [r.choice(drifts), spec, r.choice(drifts), spec]
+        alone = []
+        for m in members:
+            try:
+                doc = json.loads(_wa_run(['-P', pol, '-j'], m)[1])
+                alone.append({'passed': doc.get('passed'), 'errors': doc.get('errors')})
+            except Exception as e:
+                alone.append({'unreadable': type(e).__name__})
+        ips = ['10.5.1.%d' % (i + 1) for i in range(len(members))]
+        tpath = os.path.join(tmpdir, 'fleet-targets.txt')
+        with open(tpath, 'w') as f:
+            f.write('\n'.join(ips) + '\n')
+        for threads in (1, 3):
+            net = fn.FakeNet({ip: _wa_server(m) for ip, m in zip(ips, members)})
+            code, out = fn.run_main(['-n', '--skip-rate-test', '-P', pol, '-j', '-T', tpath, '--threads', str(threads)], net)
+            cov.add(('fleet', json.dumps(spec, sort_keys=True), threads), True, tags=['fleet-policy-scan'])
+            inp = {'fleet': True, 'server': spec, 'members': members, 'threads': threads}
+            try:
+                docs = json.loads(out)
+            except Exception:
+                fail('fleet_scan_unreadable', inp, out[-300:], 'a JSON array of %d reports' % len(members))
+                continue
+            by_host = {d_.get('host'): d_ for d_ in docs if isinstance(d_, dict)}
+            for ip, ref in zip(ips, alone):
+                d_ = by_host.get(ip)
+                got = {'passed': d_.get('passed'), 'errors': d_.get('errors')} if d_ else None
+                if 'unreadable' not in ref and got != ref:
+                    fail('fleet_verdict_differs_from_single_scan', dict(inp, target=ip), got, ref)
+                    break
+
+
 def whole_audit_stage(ctx, fail, cov):
     import shutil
     import tempfile
@@ -423,6 +468,7 @@ def whole_audit_stage(ctx, fail, cov):
             for _ in drifts:
                 cov.add(('whole-audit-drift', json.dumps(_[0], sort_keys=True), _[2]), True, tags=['whole-audit-drift'])
             _wa_judge(spec, drifts, None, fail, d, None)
+        fleet_stage(ctx, fail, cov, specs[:ctx.scale(3, 30)], d)
     finally:
         shutil.rmtree(d, ignore_errors=True)
 
